@@ -271,7 +271,8 @@ def w_history(ctx, rng, i):
     for step in range(int(rng.integers(5, 31 if ctx.tier == "thorough" else 16))):
         who = live[rng.integers(0, len(live))]
         ev = ["fresh", "same_object_edited", "near_equal", "other_size", "shape", "on_copy", "repeat_values", "retry_failed",
-              "int_or_f32", "on_shared_edges", "reparameterised", "inverse_taken", "previous_result_edited", "non_finite_points"][rng.integers(0, 14)]
+              "int_or_f32", "on_shared_edges", "reparameterised", "inverse_taken", "previous_result_edited", "non_finite_points",
+              "readonly_view_of_a_buffer"][rng.integers(0, 15)]
         n = n0
         outside = 0.35 if (is_pwa and rng.random() < 0.35) else 0.0
         if ev == "fresh" or prev is None:
@@ -279,6 +280,19 @@ def w_history(ctx, rng, i):
         elif ev == "same_object_edited":
             x = prev
             x[...] = domain_points(rng, who, d, len(prev), outside)      # edited in place, same object, same shape
+        elif ev == "readonly_view_of_a_buffer":
+            # the caller hands over a read-only view of a buffer it keeps refilling (what as_vector() / setflags(write=False)
+            # give): applied, buffer refilled through its owner, the same view applied again
+            owner = domain_points(rng, who, d, n, outside)
+            x = owner.view()
+            x.flags.writeable = False
+            try:
+                who.apply(x, batch_size=None if rng.random() < 0.6 else len(x))
+            except TriangleContainmentError:
+                pass
+            except (ValueError, TypeError, IndexError):
+                pass
+            owner[...] = domain_points(rng, who, d, len(owner), outside)
         elif ev == "near_equal":
             x = prev + rng.choice([1e-3, 1e-6, 1e-9, 1e-12]) * rng.choice([-1, 1], prev.shape)
         elif ev == "other_size":
@@ -388,13 +402,13 @@ def w_history(ctx, rng, i):
                         ctx.fail("application_changed_the_shape_it_was_given", cls=type(who).__name__)
             else:
                 last_result = who.apply(x, batch_size=bs)
-            if x.dtype == float and ev != "other_width":
+            if x.dtype == float and ev not in ("other_width", "readonly_view_of_a_buffer"):
                 prev = x
         except TriangleContainmentError:
             if np.isfinite(x).all():
                 last_failed = np.array(x, dtype=float, copy=True)
             events.add("failed")
-            if x.dtype == float and np.isfinite(x).all():
+            if x.dtype == float and np.isfinite(x).all() and ev != "readonly_view_of_a_buffer":
                 prev = x
         except (ValueError, TypeError, IndexError):
             events.add("refused")
